@@ -107,9 +107,12 @@ PLANS["C11"] = {
             "each destination pixel must be bit-identical to the source pixel under its centre (either neighbour when the centre is within "
             "4(n+2) ulp of an integer); non-trivial = destination size differs from the crop size",
     "assumptions": CONV_ASSUME,
-    "quick": [step("rel", "firv-core", 160000), step("asan", "firv-core", 16000), step("miri", "firv-core", 320, shards=16, timeout=3000)],
+    "quick": [step("rel", "firv-core", 160000), step("asan", "firv-core", 16000), step("miri", "firv-core", 320, shards=16, timeout=3000),
+              # the edge-flush geometry through cropped / nested / dynamic source containers (their own row stepping)
+              step("rel", "firv-views", 48000, sub="nearest_edge", prop_arg="C13")],
     "thorough": [step("rel", "firv-core", 4000000, timeout=7200), step("asan", "firv-core", 400000, timeout=7200),
-                 step("miri", "firv-core", 3200, shards=16, timeout=14000)],
+                 step("miri", "firv-core", 3200, shards=16, timeout=14000),
+                 step("rel", "firv-views", 1000000, sub="nearest_edge", prop_arg="C13", timeout=7200)],
 }
 FLOORS["C11"] = {"quick": [
     (">= 5000 sub-pixel edge-flush cases", lambda o: o["counters"]["subpixel_edge_flush_cases"] >= 5000),
